@@ -68,10 +68,19 @@ fn enc_protected(idx: usize) -> Result<Vec<u8>, String> {
 // ------------------------------------------------------------------------------------------
 
 fn a_aad(rng: &mut Rng) -> Arg {
+    if rng.chance(1, 8) {
+        // any length, not only the boundary classes of the palette
+        let n = rng.log_uniform(1, 70_000) as usize;
+        return Arg::B(pat(n, 11));
+    }
     let p = bytes_palette();
     Arg::B(p[rng.weighted(&[14, 8, 14, 12, 4, 4, 2, 2, 1, 0, 0])].clone())
 }
 fn a_payload(rng: &mut Rng) -> Arg {
+    if rng.chance(1, 8) {
+        let n = rng.log_uniform(1, 70_000) as usize;
+        return Arg::B(pat(n, 12));
+    }
     let p = bytes_palette();
     Arg::B(p[rng.weighted(&[8, 8, 14, 12, 6, 6, 3, 3, 2, 1, 1])].clone())
 }
